@@ -101,8 +101,9 @@ def handleScan (ds : DState) (sc : ScanCase) : DState × Json :=
       (out.recs.zip sc.obs.recs).flatMap (fun (m, ob) =>
         let v := views m.name
         (aspectsOf (ds.ctl.globalDry || m.cfg.dryMode) v m.j ob.j).map (fun a => m.name ++ ":" ++ a) ++
-        (if m.delta == ob.delta then [] else [m.name ++ ":delta"]))
+        (if m.delta == ob.delta || sc.obs.outcome == "fatal:fleet-strikes" then [] else [m.name ++ ":delta"]))
     let dStates : List String :=
+      if sc.obs.outcome == "fatal:fleet-strikes" then [] else   -- log.Fatalf: the process is gone, its state is moot
       sc.obs.states.flatMap (fun os =>
         match findState out.st.groups os.name with
         | some s => if stateOf os.name s == os then [] else [os.name ++ ":state"]
@@ -140,6 +141,13 @@ def handleScan (ds : DState) (sc : ScanCase) : DState × Json :=
       | some t0, some c => if sc.nowReal - t0 < c.coolNs && !ob.j.isEmpty then ["C02:" ++ ob.name ++ ":activity-in-cooldown"] else []
       | _, _ => [])
     let mons := mons ++ mon02
+    -- C20 on the observed outcome
+    let mon20 : List String :=
+      if sc.obs.outcome.startsWith "panic:" then ["C20:panic:" ++ sc.obs.outcome]
+      else if sc.obs.outcome == "fatal:rebuild-failed" || sc.obs.outcome == "fatal:group-missing" then ["C20:fatal:rebuild-failed"]
+      else if sc.obs.outcome == "fatal:fleet-strikes" then ["C20:fatal:fleet-strikes"]
+      else []
+    let mons := mons ++ mon20
     let armed' : List (String × Int) := sc.obs.recs.foldl (fun acc ob =>
       if acceptedRaise ob.j then (ob.name, sc.nowReal) :: acc.filter (fun p => p.1 != ob.name) else acc) ds.armed
     let diffs := dOutcome ++ dPre ++ dRecs ++ dStates
